@@ -756,8 +756,15 @@ class PMut(PaneBase, frozen=False):
     c: t.List[int] = field(default_factory=list)
 
 
+class PFlags(PaneBase):
+    a: int = 1
+    secret: str = field(default='s', repr=False)
+    note: str = field(default='n', compare=False)
+    skip: int = field(default=0, exclude=True)
+
+
 def _base_objs():
-    out = []
+    out = [PFlags(), PFlags(a=2, secret='x', note='y', skip=3)]
     for cls, objs in _instances_of_classes():
         out += objs[:4]
     out += [PMut(), PMut(a=5), PMut.from_data({'b': 'q', 'c': [1, 2]}), PT(1), PT(1, 2, label='z'), PNest.from_data({'inner': {'n': 1}})]
